@@ -334,7 +334,12 @@ StreamExecutor<INSTRUMENTS_USIZE> {
                     };
                     match concurrency_limit {
                         1 => stream.for_each(item_processor).await,     // faster in `futures 0.3` -- may be useless in the future
-                        _ => stream.for_each_concurrent(concurrency_limit as usize, item_processor).await,
+                        _ => {
+                            // `for_each_concurrent()` drops the source stream as soon as it ends, while item futures may still be in flight
+                            // -- and dropping the stream is what tells the channel (and whoever awaits `close()`) that this consumer is done
+                            let mut stream = Box::pin(stream);
+                            stream.as_mut().for_each_concurrent(concurrency_limit as usize, item_processor).await
+                        },
                     }
                     on_executor_end!(self_ref, true, true, Duration::ZERO, Self::INSTRUMENTS);
                     stream_ended_callback(self).await;
@@ -389,7 +394,12 @@ StreamExecutor<INSTRUMENTS_USIZE> {
                     };
                     match concurrency_limit {
                         1 => stream.for_each(item_processor).await,     // faster in `futures 0.3` -- may be useless in other versions
-                        _ => stream.for_each_concurrent(concurrency_limit as usize, item_processor).await,
+                        _ => {
+                            // `for_each_concurrent()` drops the source stream as soon as it ends, while item futures may still be in flight
+                            // -- and dropping the stream is what tells the channel (and whoever awaits `close()`) that this consumer is done
+                            let mut stream = Box::pin(stream);
+                            stream.as_mut().for_each_concurrent(concurrency_limit as usize, item_processor).await
+                        },
                     }
                     on_executor_end!(self_ref, true, true, self_ref.futures_timeout, Self::INSTRUMENTS);
                     stream_ended_callback(self).await;
@@ -434,7 +444,12 @@ StreamExecutor<INSTRUMENTS_USIZE> {
                     };
                     match concurrency_limit {
                         1 => stream.for_each(item_processor).await,     // faster in `futures 0.3` -- may be useless in the future
-                        _ => stream.for_each_concurrent(concurrency_limit as usize, item_processor).await,
+                        _ => {
+                            // `for_each_concurrent()` drops the source stream as soon as it ends, while item futures may still be in flight
+                            // -- and dropping the stream is what tells the channel (and whoever awaits `close()`) that this consumer is done
+                            let mut stream = Box::pin(stream);
+                            stream.as_mut().for_each_concurrent(concurrency_limit as usize, item_processor).await
+                        },
                     }
                     on_executor_end!(self_ref, true, true, Duration::ZERO, Self::INSTRUMENTS);
                     stream_ended_callback(self).await;
@@ -477,7 +492,12 @@ StreamExecutor<INSTRUMENTS_USIZE> {
                     };
                     match concurrency_limit {
                         1 => stream.for_each(item_processor).await,     // faster in `futures 0.3` -- may be useless in other versions
-                        _ => stream.for_each_concurrent(concurrency_limit as usize, item_processor).await,
+                        _ => {
+                            // `for_each_concurrent()` drops the source stream as soon as it ends, while item futures may still be in flight
+                            // -- and dropping the stream is what tells the channel (and whoever awaits `close()`) that this consumer is done
+                            let mut stream = Box::pin(stream);
+                            stream.as_mut().for_each_concurrent(concurrency_limit as usize, item_processor).await
+                        },
                     }
                     on_executor_end!(self_ref, true, true, self_ref.futures_timeout, Self::INSTRUMENTS);     // notice the `fallible = true` here -- this is due to the timeouts, that shows as errors
                     stream_ended_callback(self).await;
